@@ -56,3 +56,6 @@ def run(repo, res, tier):
     # line ends are white space: the command-line front end reads a label file with the same line-end translation as the library
     from .. import hookrules as _hk4io
     _hk4io.rule_io_kind(repo, res)
+    # every route of get_text_from reads the file with the same line-end translation
+    from .. import entryrules as _er4
+    _er4.rule_f4(repo, res)
